@@ -9,11 +9,17 @@ C11  Expression equality is symmetric, case-insensitive and hash-consistent.
      (Python otherwise sets ``__hash__`` to None / inherits an inconsistent one).
  R3  every expression class resolves ``__eq__`` to a loki implementation (the
      mixin precedes the pymbolic bases in the MRO); ``_canonical`` lower-cases.
+ R4  no raw-string comparison inside ``__eq__``: operands of ``==`` in an
+     expression class' ``__eq__`` are expression objects / values, or strings that
+     were lower-cased; ``str(a) == str(b)`` re-introduces case sensitivity.
+ R5  the documented ``1:n == n`` shortcut is taken exactly when the lower bound
+     is 1 and there is no stride (truth table of ``Range.__eq__`` /
+     ``RangeIndex.__eq__``).
 Not decided: symmetry across unrelated classes in general; case-sensitive mode.
 """
 import ast
 
-from sa import dispatch as D, exprs as X
+from sa import dispatch as D, exprs as X, boolfun as BF
 from sa.model import AnalysisError, ClassInfo
 from sa.mutate import Mutant
 
@@ -130,6 +136,48 @@ def run(ctx):
             ctx.violation('R2', c.name, c.where, f'{c.name} defines __eq__ without __hash__ (Python sets __hash__ = None)')
         else:
             ctx.judge('R2', c.name, nontrivial=own_eq)
+    # ---- R4 / R5
+    ctx.rule('R4', 'no Compare(==) in an expression-class __eq__ has a str(...) operand that is not lower-cased')
+    ctx.rule('R5', 'Range/RangeIndex.__eq__: the upper-bound shortcut is returned iff children[0] == 1 and children[2] is None')
+    neq = 0
+    for c in classes:
+        mem = c.members.get('__eq__')
+        if mem is None or mem.kind != 'func':
+            continue
+        neq += 1
+        bad = []
+        for n in ast.walk(mem.node):
+            if isinstance(n, ast.Compare) and isinstance(n.ops[0], (ast.Eq, ast.NotEq)):
+                for side in [n.left] + n.comparators:
+                    t = ast.unparse(side)
+                    if isinstance(side, ast.Call) and X.call_name_of(side) in ('str', 'repr') and '.lower()' not in t:
+                        bad.append(ast.unparse(n))
+        inst = f'{c.name}.__eq__:raw-str'
+        if bad:
+            ctx.violation('R4', inst, f'{c.module.relpath}:{mem.node.lineno}',
+                          f'{c.name}.__eq__ compares `{bad[0]}`: str() keeps the letter case of names, so nodes differing only in '
+                          f'case compare unequal (while their hashes, built from the case-insensitive parts, still agree)')
+        else:
+            ctx.judge('R4', inst)
+    ctx.floor('R4', 'expression classes defining __eq__', neq, 5)
+    for cn in ('Range', 'RangeIndex'):
+        c = next(k for k in classes if k.name == cn)
+        mem = c.members.get('__eq__')
+        if mem is None:
+            raise AnalysisError(f'{cn}.__eq__ vanished')
+        body = X.body_nodoc(mem.node)
+        is_short = lambda st: isinstance(st, ast.Return) and 'self.children[1] == other' in ast.unparse(st)   # noqa: E731
+        rows = bad = 0
+        for env, label, marks in BF.truth_table(body, is_mark=is_short, extra_atoms=['self.children[0] == 1', 'self.children[2] is None']):
+            rows += 1
+            want = env['self.children[0] == 1'] and env['self.children[2] is None']
+            if bool(marks) != want:
+                bad += 1
+        (ctx.judge('R5', f'{cn}.__eq__ shortcut guard', facts={'rows': rows}) if not bad else
+         ctx.violation('R5', f'{cn}.__eq__:shortcut-guard', f'{c.module.relpath}:{mem.node.lineno}',
+                       f'the `1:n == n` shortcut of {cn} is taken outside the documented case (lower bound 1, no stride) on {bad}/{rows} '
+                       f'rows: e.g. a strided range 1:n:2 compares equal to n (asymmetric and hash-inconsistent)'))
+
     # R3 canonicaliser
     mix = m.get_class('loki/expression/mixins.py', 'StrCompareMixin')
     can = mix.function('_canonical')
@@ -164,5 +212,12 @@ MUTANTS = [
            "    def __hash__(self):\n        return hash((self.value, self.kind))\n\n    def __eq__(self, other):\n        if isinstance(other, IntLiteral):",
            "    def __hash__(self):\n        return hash((self.value, self.kind, self.source))\n\n    def __eq__(self, other):\n        if isinstance(other, IntLiteral):",
            expect=('R1', 'IntLiteral')),
+    Mutant('literal-kind-str-compare', 'loki/expression/literals.py',
+           "        if isinstance(other, IntLiteral):\n            return self.value == other.value and self.kind == other.kind",
+           "        if isinstance(other, IntLiteral):\n            return self.value == other.value and str(self.kind) == str(other.kind)",
+           expect=('R4', 'IntLiteral.__eq__')),
+    Mutant('range-shortcut-ignores-stride', SY, "        if self.children[0] == 1 and self.children[2] is None:\n            return self.children[1] == other or super().__eq__(other)\n        return super().__eq__(other)\n\n    @property\n    def lower",
+           "        if self.children[0] == 1:\n            return self.children[1] == other or super().__eq__(other)\n        return super().__eq__(other)\n\n    @property\n    def lower",
+           expect=('R5', 'Range.__eq__')),
     Mutant('repair-inlinecall-hash', SY, "        return hash(self.__getinitargs__())", "        return hash(self._canonical(self))", expect=None),
 ]
